@@ -15,8 +15,8 @@ ASSUMPTIONS = ['ridges are 3 map rows thick with the maximum in the middle row (
                'with end-point responses (overlapping one ridge pixel at each end) the ridge is at least 9 px long', 'expected end points ds*(x0-2), ds*(x1+2) within 1.5*ds; vertical position within 0.9*ds; heights within 0.5*ds',
                'lines of the two runs of the rotation clause are matched by nearest end points (the engine orders lines with random jitter)']
 N = {'quick': 340, 'thorough': 17000}
-CLASSES = ['maps', 'maps', 'maps_sloped', 'maps_endpoints', 'maps_many', 'detect_rot', 'detect_rot', 'maps_short']
-REQUIRED = ['parse_calls', 'ridges_checked', 'sloped_ridges', 'endpoint_ridges', 'short_ridges', 'detect_pairs', 'rotated_lines_compared', 'rot1', 'rot2', 'rot3', 'regions_compared']
+CLASSES = ['maps', 'maps', 'maps_sloped', 'maps_endpoints', 'maps_many', 'detect_rot', 'detect_rot', 'maps_short', 'detect_columns']
+REQUIRED = ['column_pages', 'same_row_pairs', 'parse_calls', 'ridges_checked', 'sloped_ridges', 'endpoint_ridges', 'short_ridges', 'detect_pairs', 'rotated_lines_compared', 'rot1', 'rot2', 'rot3', 'regions_compared']
 SHARDS = {'quick': 8, 'thorough': 16}
 # 'within one pixel': the engine's un-rotation uses W - y where the exact inverse is W - 1 - y (exactly 1 px apart); outlines are float32
 # arrays, so the observed difference can exceed 1 by float32 round-off (1.0000038 seen at x = 290 in the thorough tier)
@@ -35,6 +35,18 @@ def setup(ctx):
 
 def gen(rng, i, ctx):
     cls = CLASSES[i % len(CLASSES)]
+    if cls == 'detect_columns':
+        # two text columns whose lines sit on the same rows, with different extents and different heights per line
+        Himg, Wimg = int(rng.integers(300, 460)) // 2 * 2, int(rng.integers(600, 760)) // 2 * 2
+        rows = list(range(60, Himg - 60, int(rng.integers(56, 90))))[:int(rng.integers(1, 5))]
+        strokes = []
+        for y in rows:
+            xl0 = int(rng.integers(30, 80)); xl1 = int(rng.integers(xl0 + 100, Wimg // 2 - 40))
+            xr0 = int(rng.integers(Wimg // 2 + 40, Wimg // 2 + 90)); xr1 = int(rng.integers(xr0 + 100, Wimg - 30))
+            strokes.append(('h', y, xl0, xl1, int(rng.integers(8, 20)), int(rng.integers(2, 5))))
+            if rng.random() < 0.85:
+                strokes.append(('h', y, xr0, xr1, int(rng.integers(8, 20)), int(rng.integers(6, 10))))
+        return {'cls': cls, 'size': [Himg, Wimg], 'strokes': strokes, 'rot': int(rng.choice([0, 0, 2]))}
     if cls == 'detect_rot':
         tall = bool(rng.random() < 0.5)
         Himg, Wimg = (int(rng.integers(500, 700)), int(rng.integers(300, 460))) if tall else (int(rng.integers(300, 460)), int(rng.integers(500, 700)))
@@ -108,6 +120,8 @@ def build_maps(case):
 def check(case, mon, ctx):
     if case['cls'] == 'detect_rot':
         return check_rot(case, mon, ctx)
+    if case['cls'] == 'detect_columns':
+        return check_columns(case, mon, ctx)
     eng = ctx.eng
     ds = case['ds']
     maps, rows = build_maps(case)
@@ -232,3 +246,52 @@ def check_rot(case, mon, ctx):
             ok = any(same_polygon_shape(p, e, ROT_TOL) for e in exp_p if len(e) >= 3)
         if not ok:
             mon.violation('rotated-analysis-returns-original-coordinates', dict(w, what='region', got=p, expected=[e.tolist() for e in exp_p][:3]))
+
+
+def check_columns(case, mon, ctx):
+    """baseline i, heights i and outline i returned by detect() must describe the SAME line (lines on one row in two columns)"""
+    import shapely.geometry as sg
+    eng = ctx.eng
+    Himg, Wimg = case['size']
+    k = case['rot']
+    img = np.zeros((Himg, Wimg, 3), np.uint8)
+    for _, y, x0, x1, asc, desc in case['strokes']:
+        img[y - 2:y + 2, x0:x1, 2] = 255
+        img[y - 8:y + 8, x0:x1, 0] = int(255 * asc / 40)
+        img[y - 8:y + 8, x0:x1, 1] = int(255 * desc / 20)
+    src = img if k == 0 else np.ascontiguousarray(np.rot90(img, k=4 - k))     # so that rot=k analyses the upright text
+    with contextlib.redirect_stdout(io.StringIO()):
+        p, b, h, t = eng.detect(src.copy(), rot=k)
+    mon.count('column_pages')
+    mon.mark_nontrivial()
+    rows = {}
+    for s_ in case['strokes']:
+        rows.setdefault(s_[1], []).append(s_)
+    mon.count('same_row_pairs', sum(1 for v in rows.values() if len(v) == 2))
+    w = {'rot': k, 'size': case['size'], 'strokes': case['strokes']}
+    if not (len(b) == len(h) == len(t) == len(case['strokes'])):
+        mon.violation('one-line-per-ridge', dict(w, lines=[len(b), len(h), len(t)]))
+        return
+    # coordinates of a rot=2 analysis refer to `src`; map the strokes into src coordinates
+    def to_src(x, y):
+        return (x, y) if k == 0 else (Wimg - 1 - x, Himg - 1 - y)
+    for i in range(len(b)):
+        bi = np.asarray(b[i], dtype=np.float64)
+        # which stroke is this baseline?
+        best, bs = np.inf, None
+        for s_ in case['strokes']:
+            _, y, x0, x1, asc, desc = s_
+            (ax, ay), (bx, by) = to_src(x0, y), to_src(x1, y)
+            d = max(np.abs(bi[:, 1] - ay).max(), max(0, min(ax, bx) - 8 - bi[:, 0].min()), max(0, bi[:, 0].max() - max(ax, bx) - 8))
+            if d < best:
+                best, bs = d, s_
+        if best > 8:
+            mon.violation('rotated-analysis-returns-original-coordinates', dict(w, what='baseline is not on a stroke', baseline=bi))
+            continue
+        asc, desc = 2 * bs[4], 2 * bs[5]       # the stub network reports heights in map pixels; the engine (down-sampling 2) returns image pixels
+        hi = np.asarray(h[i], dtype=np.float64)
+        if abs(hi[0] - asc) > 1.5 or abs(hi[1] - desc) > 1.5:
+            mon.violation('heights-match-the-map', dict(w, note='heights returned at this position belong to another line', line=i, baseline=bi, heights=hi, expected=[asc, desc]))
+        ti = sg.Polygon(np.asarray(t[i], dtype=np.float64))
+        if not ti.buffer(1.0).contains(sg.LineString(bi)):
+            mon.violation('outline-encloses-the-baseline-band', dict(w, note='outline returned at this position does not contain the baseline returned at the same position', line=i, baseline=bi, outline=t[i]))
